@@ -677,7 +677,7 @@ def expand_additional_doses(model: Model, flag: bool = False):
     idv = model.datainfo.idv_column.name
     idcol = model.datainfo.id_column.name
 
-    df = model.dataset.copy()
+    df = model.dataset.reset_index(drop=True)
 
     try:
         event = model.datainfo.typeix['event'][0].name
